@@ -1,9 +1,14 @@
 /-
   C06 — No input makes the library panic, overflow or abort.
 
-  Every `expect` / `unreachable!` / indexing / overflow site of the Rust code is an explicit
-  `panic` outcome of the model (never totalised away); the theorems say those outcomes are
-  unreachable from the public entry points.  Termination of every model function is checked by
+  The `expect` / `unreachable!` / indexing / overflow sites of the Rust code are explicit `panic`
+  outcomes of the model, and the theorems say those outcomes are unreachable from the public entry
+  points.  Three groups of sites have no `panic` outcome in the model because the surrounding code makes
+  them unreachable at a glance; for these the "glance" is a theorem (`number_sites_unreachable`,
+  `configuration_sites_unreachable`, Purr/Lemmas/ExpectL.lean): `expect("number")` after at most three
+  digits (read_bracket.rs:81,109), `unreachable!("TB1X"/"OH1X"/"OH2X")` after a first digit that may take a
+  second one (read_configuration.rs), and the `expect`s of read_rnum.rs, whose bound is proved inside the
+  definition of `readRnum`.  Termination of every model function is checked by
   Lean itself (structural recursion, or the measure `2·|input| + rank mode` for the reader), which is
   the model-level statement that no loop runs forever.
 
@@ -22,6 +27,8 @@
 import Purr.Props.C08
 import Purr.Props.C17
 import Purr.Lemmas.WalkPanicL
+import Purr.Lemmas.ExpectL
+import Purr.Props.C15
 namespace Purr.C06
 open Purr
 
@@ -59,5 +66,24 @@ theorem walk_only_panics_on_rnum (g : Graph) (site : String) (h : (walk g).2 = .
 /-- the hydrogen-count queries return a value that fits a byte with room to spare, for any degree -/
 theorem hydrogens_no_overflow (a : Atom) : a.subvalence ≤ 6 ∧ a.suppressedHydrogens ≤ 9 :=
   ⟨(C17.no_wraparound a).1, C17.hydrogens_le a⟩
+
+/-- `digits.try_into().expect("number")` (read_bracket.rs:81 and :109) cannot fail: once the first digit of an isotope or
+    of a map number has been seen, at most three digits are collected and the value converts -/
+theorem number_sites_unreachable (c : Char) (r : Str) (h : isDigit c = true) :
+    ((readIsotope (c :: r)).1).isSome = true ∧ ∃ v rest, readMap (':' :: c :: r) = .ok (some v) rest :=
+  ⟨readIsotope_number c r h, readMap_number c r h⟩
+
+/-- `unreachable!("TB1X")`, `unreachable!("OH1X")`, `unreachable!("OH2X")` (read_configuration.rs): every value the
+    two-digit readers can assemble on those paths is a configuration, so the conversion the model writes as `cfgRes`
+    never sees `none` there -/
+theorem configuration_sites_unreachable :
+    ((∀ e, e < 10 → (Configuration.tb? (10 * 1 + e)).isSome = true) ∧ (Configuration.tb? (10 * 2)).isSome = true ∧
+      ∀ d, d < 10 → 1 ≤ d → (Configuration.tb? d).isSome = true) ∧
+    ((∀ d, d < 3 → 1 ≤ d → ∀ e, e < 10 → (Configuration.oh? (10 * d + e)).isSome = true) ∧
+      (Configuration.oh? (10 * 3)).isSome = true ∧ ∀ d, d < 10 → 1 ≤ d → (Configuration.oh? d).isSome = true) :=
+  ⟨tb_two_digit_total, oh_two_digit_total⟩
+
+/-- reading with a trace: `expect("last on stack")` and `panic!("overpop")` of trace.rs are unreachable (C15) -/
+theorem read_with_trace_no_panic (s : Str) : (trace? s).isSome := C15.trace_no_panic s
 
 end Purr.C06
